@@ -191,7 +191,8 @@ class PipeEndpoint():
 
         try:
             return self._pipe.recv()
-        except (EOFError, BrokenPipeError):
+        except (EOFError, OSError):
+            # OSError covers BrokenPipeError, a connection reset and a message truncated by the death of the sender
             raise queue.Empty
 
     def get_nowait(self):
